@@ -464,6 +464,15 @@ def run(prog: Program) -> Results:
     for fnd in sub.findings:
         if fnd.rule == "R-C04-3":
             res.add("R-C09-5", fnd.key, fnd.where, fnd.message)
+    st41 = sub.rules.get("R-C04-1")
+    r11 = res.rule("R-C09-11", "a scoped edit writes the addressed layer's own lists: every document-state write reachable from set/rm "
+                   "targets the addressed binding, its containers or their order mirror — a list that is rebound on the temporary "
+                   "set standing for a layer never reaches the layer (shared with R-C04-1)", floor=2)
+    if st41:
+        r11.instances, r11.obligations, r11.discharged = st41.instances, st41.obligations, st41.discharged
+    for fnd in sub.findings:
+        if fnd.rule == "R-C04-1":
+            res.add("R-C09-11", fnd.key, fnd.where, fnd.message)
     # ---------------------------------------------------------------- R-C09-8 layers are told apart by position, never by content
     r8 = res.rule("R-C09-8", "let layers are identified by position: outside __eq__ no `==` / `!=` / `in` compares a layer's bindings "
                   "(`layer[\"scope\"]`, `.scope`, `.local_variables`) with another's — two layers that bind the same names to the same "
@@ -528,5 +537,47 @@ def run(prog: Program) -> Results:
             res.add("R-C09-10", _f.key, _f.where, _f.message)
     from sa.rules import cursor
     cursor.check(prog, res, "R-C09-7", ("cli/manipulations.py",), 4)
+    body_only_without_layers(prog, res)
     res.assumptions = ["contents of the other layers' text and name shadowing across layers are runtime data"]
     return res
+
+
+def body_only_without_layers(prog: Program, res: Results) -> None:
+    """R-C09-12: `@name` addresses a let layer.  The one shortcut that edits the body set instead (the body already defines the
+    name and there is no `let` to put it in) is taken only when no layer exists."""
+    from sa.cfg import CFG, edges_establishing
+    from sa.tables.reviewed import scope_creation_parts
+    from sa.util import callee
+    r = res.rule("R-C09-12", "a scoped selector edits a let layer: in set_value / remove_value an edit helper applied to the resolved body "
+                 "set itself (not to the set standing for a layer) on the scoped branch is dominated by the fact that no layer exists "
+                 "(`not layers`)", floor=1)
+    for key in ("set_value", "remove_value"):
+        f = prog.funcs.get(key)
+        if f is None:
+            continue
+        layers, depth, target = scope_creation_parts(f.node)
+        if not (layers and target):
+            continue
+        cfg = CFG(f.node)
+        res.analysed_functions.add(key)
+        # the scoped branch: statements after the layers were collected
+        ln = next((n for n in cfg.nodes if isinstance(n.ast, ast.Assign) and isinstance(n.ast.value, ast.Call) and callee(n.ast.value) == "_collect_scope_layers"), None)
+        if ln is None:
+            continue
+        after = cfg.reachable(ln, follow_exc=False)
+        none = edges_establishing(cfg, lambda a, t: (norm(a) in (layers, f"len({layers})", f"len({layers}) > 0") and t is False)
+                                  or (norm(a) in (f"not {layers}", f"len({layers}) == 0") and t is True))
+        for n in after:
+            if n.ast is None or n.kind not in ("stmt", "test", "return"):
+                continue
+            for c in ast.walk(n.ast):
+                if isinstance(c, ast.Call) and (callee(c) or "").startswith(("_set_value_in_attrset", "_remove_value", "_set_attrpath", "_remove_attrpath")) \
+                        and c.args and isinstance(c.args[0], ast.Name) and c.args[0].id == target:
+                    r.instances += 1
+                    ok = bool(none) and cfg.all_paths_pass(n, cut_edges=none)
+                    r.ob(ok, {"site": key, "edit_of_the_body": norm(c)[:60]})
+                    if not ok:
+                        res.add("R-C09-12", (key, "scoped selector edits the body although layers exist", callee(c)), f.loc(c),
+                                f"{key}: `{norm(c)[:70]}` edits the body set `{target}` on the `@` branch without `not {layers}` being known: "
+                                f"with `let version = …; in {{ version = …; }}`, `set @version` rewrites the body's attribute and leaves the "
+                                f"let layer it addresses untouched")
